@@ -193,7 +193,7 @@ def random_file(r, maxlines, opt="none", bad_rate=0.0, single_line=False, commen
                 sp = g.sep()
                 v, q = g.value(sp)
                 tcc, tct = g.tcomment()
-                l = line("entry", ind=rblanks(r), key=g.key(), sep=sp, val=v, q=q, tw=rblanks(r), tcc=tcc, tct=tct)
+                l = line("entry", ind="" if python else rblanks(r), key=g.key(), sep=sp, val=v, q=q, tw=rblanks(r), tcc=tcc, tct=tct)
         abs_.append(l); prev = l
     return {"par": {"delim": cds(D), "comment": cds(C), "python": python, "join": join},
             "abs": abs_, "lines": [cds(render(l)) for l in abs_]}
